@@ -29,8 +29,7 @@ BUDGET = {'quick': 240, 'thorough': 3000}
 
 
 def shards(tier):
-    return e1.std_shards(tier, with_p=True, with_big=True) + \
-        ([('W', 'contranominal', 10)] if tier == 'quick' else [])
+    return e1.std_shards(tier, with_p=True, with_big=True)
 
 
 def label_obs(lat):
